@@ -38,11 +38,11 @@ ApplyInt(n, s) ==
     [] n = "INTEGER.*" -> Bin(s, "int", LAMBDA r, a, b :
                             PushIntRes(r, IF MulFits(a, b) THEN <<TRUE, a * b>> ELSE <<FALSE, 0>>))
     [] n = "INTEGER./" -> Bin(s, "int", LAMBDA r, a, b :
-                            IF b = 0 THEN Fired(r)
+                            IF b = 0 THEN Unfired(r)
                             ELSE PushIntRes(r, IF DivFits(a, b) THEN <<TRUE, TruncDiv(a, b)>> ELSE <<FALSE, 0>>))
     \* documented: remainder of the quotient truncated toward negative infinity (floored modulo)
     [] n = "INTEGER.%" -> Bin(s, "int", LAMBDA r, a, b :
-                            IF b = 0 THEN Fired(r)
+                            IF b = 0 THEN Unfired(r)
                             ELSE PushIntRes(r, IF DivFits(a, b) THEN <<TRUE, FloorRem(a, b)>> ELSE <<TRUE, 0>>))
     [] n = "INTEGER.<" -> Bin(s, "int", LAMBDA r, a, b : PushBool(r, a < b))
     [] n = "INTEGER.=" -> Bin(s, "int", LAMBDA r, a, b : PushBool(r, a = b))
@@ -77,9 +77,9 @@ ApplyFloat(n, s) ==
     [] n = "FLOAT.-" -> Bin(s, "float", LAMBDA r, a, b : PushFloatRes(r, FSub(a, b)))
     [] n = "FLOAT.*" -> Bin(s, "float", LAMBDA r, a, b : PushFloatRes(r, FMul(a, b)))
     [] n = "FLOAT./" -> Bin(s, "float", LAMBDA r, a, b :
-                          IF FIsZero(b) THEN Fired(r) ELSE PushFloatRes(r, FDiv(a, b)))
+                          IF FIsZero(b) THEN Unfired(r) ELSE PushFloatRes(r, FDiv(a, b)))
     [] n = "FLOAT.%" -> Bin(s, "float", LAMBDA r, a, b :
-                          IF FIsZero(b) THEN Fired(r) ELSE PushFloatRes(r, FRem(a, b)))
+                          IF FIsZero(b) THEN Unfired(r) ELSE PushFloatRes(r, FRem(a, b)))
     [] n = "FLOAT.<" -> Bin(s, "float", LAMBDA r, a, b : PushBool(r, FLt(a, b)))
     [] n = "FLOAT.=" -> Bin(s, "float", LAMBDA r, a, b : PushBool(r, FEq(a, b)))
     [] n = "FLOAT.>" -> Bin(s, "float", LAMBDA r, a, b : PushBool(r, FGt(a, b)))
